@@ -295,9 +295,9 @@ PROPS["C13"] = {
 PROPS["C09"] = {
     "level": "exploration",
     "rule": "cases are histories (3-22 ops) over 3-5 locations sharing one storage, served either by a core.SimpleLocationProvider "
-            "(2/5 of the cases) or by a sys.System that is itself the provider resolving the parents, with location TTL forever / never / "
-            "1 ms (with a finite TTL every request works on what System.GetLocation returns at that moment, i.e. with TTL never on a "
-            "location freshly loaded from storage): SetParents (in 3/4 "
+            "(half of the cases) or by a sys.System that is itself the provider resolving the parents, with location TTL forever or never "
+            "(with TTL never every request works on a location freshly loaded from storage; a 1 ms TTL is not generated: the harness "
+            "works on unpinned instances, see DESIGN.md A.0): SetParents (in 3/4 "
             "of the cases only towards 'later' locations, i.e. forests and multi-parent DAGs; in 1/4 arbitrary targets incl. self, 2- "
             "and 3-cycles), facts and rules with location-qualified ids, a deliberately unqualified fact id 'shared', RemFact, RemRule, "
             "and EnableRule of own and foreign (inherited) rule ids; indexed or linear. After every operation the observation vector "
